@@ -37,7 +37,9 @@ let show_bool b = if b then "t" else "f"
 
 (* seq <elements>+<poison>;op op op *)
 let run_seq (hdr : string) (ops : string list) : string =
-  let recv = String.sub hdr 4 (String.length hdr - 4) in
+  let hl = if String.length hdr >= 4 && String.sub hdr 0 4 = "seqn" then 5 else 4 in
+  let hdr = if String.length hdr < hl then hdr ^ " " else hdr in
+  let recv = String.sub hdr hl (String.length hdr - hl) in
   let el, poison =
     match String.index_opt recv '+' with
     | Some i -> String.sub recv 0 i, String.sub recv (i + 1) (String.length recv - i - 1)
@@ -47,20 +49,26 @@ let run_seq (hdr : string) (ops : string list) : string =
   let out = Buffer.create 256 and strict = Buffer.create 256 in
   let first = ref true and stop = ref false in
   let emit s = (if not !first then Buffer.add_char out '|'); first := false; Buffer.add_string out s in
+  let last = ref None and nostrict = ref false in
   let mut (r : sl res) =
     match r with
     | Ret s' -> st := s'; emit (zs (view s'));
-      Buffer.add_string strict (zs (fst s')); Buffer.add_char strict '|'
+      if not !nostrict then begin Buffer.add_string strict (zs (fst s')); Buffer.add_char strict '|' end
     | Panic -> emit "panic"; stop := true
     | OutOfFuel -> emit "fuel"; stop := true in
   let fn (r : z list res) =
-    emit (show_list r); (match r with Ret _ -> () | _ -> stop := true) in
+    emit (show_list r); (match r with Ret l -> last := Some l | _ -> stop := true) in
   List.iter (fun t ->
       if not !stop then begin
         let k = t.[0] in
         let arg = String.sub t 2 (String.length t - 2) in
         let a = view !st in
+        let parse_list s = if s = "@" then a else parse_list s in
         match k with
+        | 'p' -> emit (match range (z_of_string "5") Z0 (z_of_string "1") with Panic -> "P" | _ -> "noP")
+        | 'R' -> (match !last with
+                  | Some l -> st := fresh l; last := None; nostrict := true; emit (zs l)
+                  | None -> emit "-")
         | 'a' -> mut (add_m !st (parse_list arg))
         | 'r' -> mut (Ret (remove_m !st (z_of_string arg)))
         | 'u' -> mut (union_m !st (parse_list arg))
@@ -110,9 +118,9 @@ let run_line (line : string) : string =
   let hdr = String.sub line 0 i in
   let toks = words (String.sub line (i + 1) (String.length line - i - 1)) in
   match words hdr with
-  | "seq" :: _ -> run_seq (if String.length hdr < 4 then "seq " else hdr) toks
+  | "seq" :: _ | "seqn" :: _ -> run_seq hdr toks
   | ["range"; s; e; st] -> show_list (range (z_of_string s) (z_of_string e) (z_of_string st))
-  | ["sort"] -> show_list (sort (List.map z_of_string toks))
+  | ["sort"] | ["sortsub"; _; _] -> show_list (sort (List.map z_of_string toks))
   | ["heapsort"; a; b] -> show_list (heap_sort (List.map z_of_string toks) (z_of_string a) (z_of_string b))
   | ["sortall"; n] -> run_sortall (int_of_string n) ""
   | ["sortall"; n; prefix] -> run_sortall (int_of_string n) prefix
